@@ -34,7 +34,7 @@ def prove_json_typed_get(f, st, label):
 
 def r1(ctx, prog):
     ctx.rule('C14.R1', 'A8: framing and dispatch never throw: Json::parse only inside CatchThrow, json at()/get() only under a '
-                       'contains()/is_*() test, no other uncaught may-throw call on the receive path', floor=6)
+                       'contains()/is_*() test, no other uncaught may-throw call on the receive path', floor=1)
     entries = [prog.fn1(NS + p + '::onRecvData') for p in PROTOS] + [prog.fn1(NS + 'Proto::onRecvJson')]
     entries += [prog.fn1(RPC + '::' + n) for n in ('onRecvRequest', 'onRecvRespond', 'onRequestTimeout', 'onRespondTimeout')]
     eng = exc.ExcEngine(prog, follow=lambda g: g.file.startswith(MODULES + '/jsonrpc/') or g.file.startswith(MODULES + '/util/'))
@@ -55,6 +55,9 @@ def r1(ctx, prog):
     if n < 3:
         raise AnalysisBroken('expected the three framings\' Json::parse calls to be seen and covered, saw %d' % n)
     ctx.stats['may_throw_sites'] = eng.sites
+    ctx.ob('C14.R1', NS + 'Proto|scanned', True, '%d functions reachable from the framing/dispatch entries, %d may-throw sites' % (eng.functions, eng.sites))
+    if eng.functions < 15:
+        raise AnalysisBroken('receive-path call graph too small (%d functions)' % eng.functions)
 
 
 def wire_locals(f):
